@@ -629,6 +629,28 @@ pub fn judge(net: &Network, o: &Observed, class: &str) -> Vec<(String, String)> 
     v
 }
 
+/// the same network written in the legacy file layout must get the same verdict
+fn legacy_judge(net: &Network, o: &Observed, class: &str) -> Vec<(String, String)> {
+    let mut v = vec![];
+    let ref_valid = o.ref_errors.is_empty() && !has_nonfinite(net);
+    // a link without any speed set cannot be told apart from "neither" in the legacy layout: same expectation
+    match legacy_load(net, "m") {
+        None => {}
+        Some(Err(p)) => v.push((format!("panic@Network::from_file:legacy:{class}"), p.chars().take(200).collect())),
+        Some(Ok(Ok(_))) => {
+            if !ref_valid {
+                v.push((format!("inconsistent-network-accepted@Network::from_file:legacy:{class}"), format!("legacy-layout file accepted although: {:?}", o.ref_errors)));
+            }
+        }
+        Some(Ok(Err(_))) => {
+            if ref_valid {
+                v.push((format!("consistent-network-rejected@Network::from_file:legacy:{class}"), "legacy-layout file rejected although every documented rule holds".into()));
+            }
+        }
+    }
+    v
+}
+
 fn class_of(c: &Case, n: usize) -> String {
     if IDX_FIELDS.contains(&c.field.as_str()) {
         if c.variant >= n {
@@ -653,7 +675,7 @@ impl Prop for C16 {
         "fault_enumeration"
     }
     fn rule(&self, _tier: Tier) -> String {
-        "fault enumeration: 5 valid base networks (line x1/x2/x3, passing siding, Y merge; with/without flips, speed_set and speed_sets styles, 2..4 elevation points, optional/wrap-around headings, 0..2 catenary sections) x EVERY single mutation at EVERY link incl. the dummy: each index field set to every in-range index and to len, len+7, u32::MAX; length in {0, NaN, inf, -1, +1}; 14 elevation and 14 heading faults (drop first/last, shift ends, swap, duplicate, NaN/inf/-inf/-1 offsets, NaN/inf values, empty, single point); 16 speed faults (end<start, unsorted, duplicate pair, NaN/inf speed, bad offsets, empty, both/neither representation, plus two mutations that must stay valid); 12 catenary shapes (valid: one/two disjoint/abutting/three disjoint; invalid: overlapping, unsorted, end<start, negative/NaN power, outside the link); through ObjState::validate, Network::from_json and Network::from_yaml (and from_file + legacy layout for the base networks). Oracle: accept <=> independent reference predicate; a panic is a violation. distinct_nontrivial = distinct (mutation class, expected verdict) pairs.".into()
+        "fault enumeration: 5 valid base networks (line x1/x2/x3, passing siding, Y merge; with/without flips, speed_set and speed_sets styles, 2..4 elevation points, optional/wrap-around headings, 0..2 catenary sections) x EVERY single mutation at EVERY link incl. the dummy: each index field set to every in-range index and to len, len+7, u32::MAX; length in {0, NaN, inf, -1, +1}; 14 elevation and 14 heading faults (drop first/last, shift ends, swap, duplicate, NaN/inf/-inf/-1 offsets, NaN/inf values, empty, single point); 16 speed faults (end<start, unsorted, duplicate pair, NaN/inf speed, bad offsets, empty, both/neither representation, plus two mutations that must stay valid); 12 catenary shapes (valid: one/two disjoint/abutting/three disjoint; invalid: overlapping, unsorted, end<start, negative/NaN power, outside the link); through ObjState::validate, Network::from_json and Network::from_yaml (from_file yaml/json for the base networks; the LEGACY file layout for the base networks and for every mutation of the speed_sets-style networks). Oracle: accept <=> independent reference predicate; a panic is a violation. distinct_nontrivial = distinct (mutation class, expected verdict) pairs.".into()
     }
     fn assumptions(&self) -> Vec<String> {
         vec![
@@ -695,7 +717,10 @@ impl Prop for C16 {
                     let class = class_of(&c, net.0.len());
                     ctx.sig(&format!("{}:{}", class, if o.ref_errors.is_empty() { "valid" } else { "invalid" }));
                     ctx.sample(|| serde_json::json!({"base": bname, "mutation": c, "reference_says": o.ref_errors}));
-                    for (k, w) in judge(&m, &o, &class) {
+                    let mut fails = judge(&m, &o, &class);
+                    fails.extend(legacy_judge(&m, &o, &class));
+                    ctx.checks(1);
+                    for (k, w) in fails {
                         ctx.violation(&k, w, serde_json::to_value(&c).unwrap(), (li + variant) as u64);
                     }
                 }
@@ -721,8 +746,44 @@ impl Prop for C16 {
         }
         let o = observe(&m);
         v.extend(judge(&m, &o, &class));
+        if c.field != "none" {
+            v.extend(legacy_judge(&m, &o, &class));
+        }
         ReplayOutcome { violations: v, observation: format!("ref={:?} validate={:?} json={:?} yaml={:?}", o.ref_errors, o.validate, o.json, o.yaml) }
     }
+}
+
+/// write `net` in the legacy layout (speed_sets as a list carrying train_type, no speed_set field) and load it with
+/// Network::from_file; None when the network cannot be expressed in that layout
+fn legacy_load(net: &Network, tag: &str) -> Option<Result<Result<Network, String>, String>> {
+    let uses_map = net.0.iter().skip(1).all(|l| l.speed_set.is_none());
+    if !uses_map {
+        return None;
+    }
+    let mut val = serde_json::to_value(net).ok()?;
+    if let Some(arr) = val.as_array_mut() {
+        for l in arr.iter_mut() {
+            let obj = l.as_object_mut()?;
+            obj.remove("speed_set");
+            let ss = obj.remove("speed_sets").unwrap_or(Value::Null);
+            let mut list = vec![];
+            if let Some(map) = ss.as_object() {
+                for (tt, s) in map {
+                    let mut s = s.clone();
+                    s.as_object_mut()?.insert("train_type".into(), Value::String(tt.clone()));
+                    list.push(s);
+                }
+            }
+            obj.insert("speed_sets".into(), Value::Array(list));
+        }
+    }
+    let dir = std::env::temp_dir().join(format!("altrios-mc-c16l-{}-{}", std::process::id(), tag));
+    let _ = std::fs::create_dir_all(&dir);
+    let p = dir.join("legacy.yaml");
+    std::fs::write(&p, serde_yaml::to_string(&val).ok()?).ok()?;
+    let r = guarded(|| Network::from_file(&p).map_err(|e| format!("{e:#}")));
+    let _ = std::fs::remove_dir_all(&dir);
+    Some(r)
 }
 
 /// from_file for yaml/json equals the in-memory network; the legacy layout loads to the same network
